@@ -1,7 +1,9 @@
-//go:build verif
+//go:build verif && verif_c20wb
 
 /*
- * Verification hook for property C20 (build tag "verif"): read-only snapshots of the
+ * Verification hook for property C20 (build tags verif && verif_c20wb: it names unexported fields of this package, so it is
+ * the white-box group of C20 - only the C20 harness asks for it, and can be built without it -, and a rename it does not
+ * follow cannot stop the other properties' harnesses, built with -tags verif, from compiling): read-only snapshots of the
  * construction-time state of a Graph / Chain / Workflow builder (node table with "type
  * known" flags, control and data edges, branches, start/end nodes, edges waiting for type
  * inference, field mapping records, sizes of the three handler maps, build error,
